@@ -133,15 +133,25 @@ def log (o : Obs S) (w : World S σ) : World S σ := { w with rtrace := o :: w.r
 def sched (ts : Int) (k : EvKind S) (w : World S σ) : World S σ :=
   { w with loop := w.loop.push ts k, raccepted := ⟨ts, w.loop.nextSeq, k⟩ :: w.raccepted }
 
+/-- the loss draw of `can_transmit`: one `random.random()` per copy iff `failure_rate > 0` -/
+def consumeDraw (cfg : Config S) (w : World S σ) : Bool × World S σ :=
+  if Scalar.gt cfg.failRate (Scalar.ofInt 0) then
+    (Scalar.gt (cfg.draws w.drawIdx) cfg.failRate, { w with drawIdx := w.drawIdx + 1 })
+  else (true, w)
+
+/-- delivery time: `current_time` if `delay <= 0` else `current_time + delay` -/
+def deliverTime (cfg : Config S) (w : World S σ) : Int :=
+  if cfg.delay ≤ 0 then w.loop.now else w.loop.now + cfg.delay
+
+/-- range test of `can_transmit`: squared distance against the SENDER's squared range -/
+def inRange (w : World S σ) (src dst : NodeId) : Bool :=
+  Scalar.le (V3.sqdist (w.pos src) (w.pos dst)) (Scalar.sq (w.range src))
+
 /-- `CommunicationHandler._transmit_message` + `can_transmit` -/
 def transmit (cfg : Config S) (src dst : NodeId) (msg : String) (w : World S σ) : World S σ :=
-  let inRange := Scalar.le (V3.sqdist (w.pos src) (w.pos dst)) (Scalar.sq (w.range src))
-  let lossy := Scalar.gt cfg.failRate (Scalar.ofInt 0)
-  let rng := if lossy then Scalar.gt (cfg.draws w.drawIdx) cfg.failRate else true
-  let w := if lossy then { w with drawIdx := w.drawIdx + 1 } else w
-  if rng && inRange then
-    sched (if cfg.delay ≤ 0 then w.loop.now else w.loop.now + cfg.delay) (.deliver dst src msg) w
-  else w
+  let ir := inRange w src dst
+  let d := consumeDraw cfg w
+  if d.1 && ir then sched (deliverTime cfg d.2) (.deliver dst src msg) d.2 else d.2
 
 def broadcastTo (cfg : Config S) (src : NodeId) (msg : String) (dsts : List NodeId) (w : World S σ) :
     World S σ :=
@@ -187,8 +197,8 @@ def execReq (cfg : Config S) (n : NodeId) (r : Request S) (w : World S σ) : Wor
 def runProg (cfg : Config S) (n : NodeId) : Prog S σ → World S σ → World S σ × σ
   | .done s, w => (w, s)
   | .req r k, w =>
-    let (w', ok) := execReq cfg n r w
-    runProg cfg n (k ok) (log (.request n r ok) w')
+    let res := execReq cfg n r w
+    runProg cfg n (k res.2) (log (.request n r res.2) res.1)
 
 /-- `PythonProvider.current_time()` -/
 def reportedTime (cfg : Config S) (w : World S σ) : Int := if cfg.hasTimer then w.loop.now else 0
@@ -198,8 +208,8 @@ def callback (cfg : Config S) (P : NodeId → Proto S σ) (n : NodeId) (cb : Cal
     (w : World S σ) : World S σ :=
   let t := reportedTime cfg w
   let w0 := log (.callback n cb t) w
-  let (w1, s) := runProg cfg n ((P n).react (w0.pstate n) n t cb) w0
-  { w1 with pstate := upd w1.pstate n s }
+  let res := runProg cfg n ((P n).react (w0.pstate n) n t cb) w0
+  { res.1 with pstate := upd res.1.pstate n res.2 }
 
 /-- `MobilityHandler._update_movement` -/
 def mobTick (cfg : Config S) (w : World S σ) : World S σ :=
